@@ -7,6 +7,8 @@ import (
 	"net/url"
 	"regexp"
 	"text/template"
+	"unicode"
+	"unicode/utf16"
 	"unicode/utf8"
 
 	"github.com/robfig/soy/data"
@@ -134,7 +136,26 @@ func directiveEscapeUri(value data.Value, _ []data.Value) data.Value {
 }
 
 func directiveEscapeJsString(value data.Value, _ []data.Value) data.Value {
-	return data.String(template.JSEscapeString(value.String()))
+	// (template.JSEscape writes a non-printable rune above U+FFFF as \u followed
+	// by more than four hex digits, which JavaScript reads as a different string;
+	// those are written as a surrogate pair here.)
+	var (
+		str  = value.String()
+		buf  bytes.Buffer
+		last = 0
+	)
+	for i := 0; i < len(str); {
+		var r, size = utf8.DecodeRuneInString(str[i:])
+		if r >= 0x10000 && !unicode.IsPrint(r) {
+			template.JSEscape(&buf, []byte(str[last:i]))
+			var r1, r2 = utf16.EncodeRune(r)
+			fmt.Fprintf(&buf, `\u%04X\u%04X`, r1, r2)
+			last = i + size
+		}
+		i += size
+	}
+	template.JSEscape(&buf, []byte(str[last:]))
+	return data.String(buf.String())
 }
 
 func directiveJson(value data.Value, _ []data.Value) data.Value {
